@@ -24,7 +24,10 @@ def tla_set(xs):
     return "{" + ", ".join('"%s"' % x for x in xs) + "}"
 
 
-def cfg_text(kind, reuse, nmods, maxreq, slots=4, f64=FORGE64, f22=FORGE22, f32=FORGE32, policy="none", mutants=False):
+SERVED = {"all": ["DI", "TO0", "TO1", "TO2"], "rv": ["TO0", "TO1"], "owner": ["TO2"], "mfg": ["DI"]}
+
+
+def cfg_text(kind, reuse, nmods, maxreq, slots=4, f64=FORGE64, f22=FORGE22, f32=FORGE32, policy="none", mutants=False, served="all"):
     common = """CONSTANTS
   Slots = {%s}
   Devs = {"dA", "dB"}
@@ -34,10 +37,11 @@ def cfg_text(kind, reuse, nmods, maxreq, slots=4, f64=FORGE64, f22=FORGE22, f32=
   Forge64 = %s
   Forge22 = %s
   Forge32 = %s
+  Served = %s
   MaxReq = %d
   WithMutants = TRUE
 """ % (", ".join(str(i) for i in range(1, slots + 1)), "TRUE" if reuse else "FALSE", nmods, policy,
-       tla_set(f64), tla_set(f22), tla_set(f32), maxreq)
+       tla_set(f64), tla_set(f22), tla_set(f32), tla_set(SERVED[served]), maxreq)
     invs = "INVARIANTS TypeOK InOrder ErrorsHaveNoEffect NoTokenNoService FinalKills EffectsNeedProof ProvenOnlyByHonest64 ForgedRefused RedirectNeedsRegistration\n"
     if kind == "trace":
         return "SPECIFICATION TraceSpec\n" + common + invs + "POSTCONDITION TraceAccepted\nCHECK_DEADLOCK FALSE\n"
@@ -69,12 +73,12 @@ def to_action(rec):
     raise Inconclusive("unknown record kind %r" % k)
 
 
-def generate(ctx, reuse, nmods, num, maxreq, seed, f64, f22, f32, policy="none", mutants=False):
+def generate(ctx, reuse, nmods, num, maxreq, seed, f64, f22, f32, policy="none", mutants=False, served="all"):
     """TLC-generated behaviours for one world configuration."""
-    wd = ctx.sub("gen-%s-%d-%s-%d" % (reuse, nmods, policy, seed))
+    wd = ctx.sub("gen-%s-%d-%s-%s-%d" % (reuse, nmods, policy, served, seed))
     cfgp = os.path.join(wd, "Server_Gen.cfg")
     with open(cfgp, "w") as f:
-        f.write(cfg_text("gen", reuse, nmods, maxreq, slots=3, f64=f64, f22=f22, f32=f32, policy=policy, mutants=mutants))
+        f.write(cfg_text("gen", reuse, nmods, maxreq, slots=3, f64=f64, f22=f22, f32=f32, policy=policy, mutants=mutants, served=served))
     r = ctx.tlc("Server_Gen", cfgp, simulate=num, depth=4 * maxreq, workers=1, seed=seed, quiet=True)
     behs = ctx.behaviours(r)
     seen, out = set(), []
@@ -85,6 +89,79 @@ def generate(ctx, reuse, nmods, num, maxreq, seed, f64, f22, f32, policy="none",
             seen.add(key)
             out.append(acts)
     ctx.cov["transitions"] += r.get("generated", 0) or 0
+    return out
+
+
+COVER_DIR = os.path.join(os.path.dirname(os.path.dirname(os.path.abspath(__file__))), "spec", "cover")
+
+
+def cover(ctx, reuse, nmods, policy, maxreq, fine, f64, f22, f32, served="all"):
+    """One behaviour per class of specification transition reachable within the bound
+    (Server_Cover.tla: breadth-first, history hidden by a VIEW, classes remembered with TLCSet).
+    The result depends on the specification only, so it is cached under spec/cover/ keyed by a
+    hash of the modules and the configuration; a changed specification regenerates it."""
+    import hashlib
+    spec = ctx.spec
+    cfg = """SPECIFICATION CoverSpec
+CONSTANTS
+  Slots = {1, 2}
+  Devs = {"dA"}
+  Reuse = %s
+  NMods = %d
+  Policy = "%s"
+  Forge64 = %s
+  Forge22 = %s
+  Forge32 = %s
+  Served = %s
+  MaxReq = %d
+  WithMutants = FALSE
+  Fine = %s
+VIEW CoverView
+INVARIANTS Emit
+CHECK_DEADLOCK FALSE
+""" % ("TRUE" if reuse else "FALSE", nmods, policy, tla_set(f64), tla_set(f22), tla_set(f32), tla_set(SERVED[served]), maxreq, "TRUE" if fine else "FALSE")
+    h = hashlib.sha256()
+    for fn in ("Server.tla", "Server_Cover.tla"):
+        with open(os.path.join(spec, fn), "rb") as f:
+            h.update(f.read())
+    h.update(cfg.encode())
+    key = h.hexdigest()[:20]
+    cpath = os.path.join(COVER_DIR, key + ".json")
+    if os.path.exists(cpath):
+        with open(cpath) as f:
+            c = json.load(f)
+        ctx.log("transition cover %s: %d classes (cached, %d states)" % (key, len(c["behaviours"]), c["distinct"]))
+    else:
+        wd = ctx.sub("cover-%s" % key)
+        cfgp = os.path.join(wd, "Server_Cover.cfg")
+        with open(cfgp, "w") as f:
+            f.write(cfg)
+        r = ctx.tlc("Server_Cover", cfgp, workers=1, quiet=True, timeout=6000)
+        if r["errors"]:
+            raise Inconclusive("Server_Cover: " + "; ".join(r["errors"])[:2000])
+        behs = ctx.behaviours(r)
+        c = {"cfg": cfg, "generated": r.get("generated"), "distinct": r.get("distinct"), "behaviours": behs}
+        try:
+            os.makedirs(COVER_DIR, exist_ok=True)
+            with open(cpath + ".tmp", "w") as f:
+                json.dump(c, f)
+            os.replace(cpath + ".tmp", cpath)
+        except OSError:
+            pass
+        ctx.log("transition cover %s: %d classes generated (%s states)" % (key, len(behs), r.get("distinct")))
+    ctx.cov["states"] += c.get("distinct") or 0
+    ctx.cov["transitions"] += c.get("generated") or 0
+    ctx.notes["spec_transition_classes"] = ctx.notes.get("spec_transition_classes", 0) + len(c["behaviours"])
+    # a behaviour that is a prefix of another one is executed as part of it
+    out, prefixes = [], set()
+    for b in sorted(c["behaviours"], key=len, reverse=True):
+        acts = [to_action(x) for x in b if x.get("kind") != "init"]
+        k = json.dumps(acts, sort_keys=True)
+        if k in prefixes or not acts:
+            continue
+        out.append(acts)
+        for i in range(1, len(acts) + 1):
+            prefixes.add(json.dumps(acts[:i], sort_keys=True))
     return out
 
 
@@ -104,9 +181,10 @@ def validate(ctx, prop, events, label):
     groups = {}
     for r in runs:
         pol = (r["reset"].get("cfg") or {}).get("policy") or "none"
-        groups.setdefault((bool(r["reset"]["reuse"]), int(r["reset"]["nmods"]), pol), []).append(r)
+        srv = (r["reset"].get("cfg") or {}).get("served") or "all"
+        groups.setdefault((bool(r["reset"]["reuse"]), int(r["reset"]["nmods"]), pol, srv), []).append(r)
     total = 0
-    for (reuse, nmods, pol), rs in sorted(groups.items()):
+    for (reuse, nmods, pol, srv), rs in sorted(groups.items()):
         pending = list(rs)
         rejected = 0
         while pending:
@@ -118,12 +196,12 @@ def validate(ctx, prop, events, label):
                 for ev in r["evs"]:
                     lines.append(ev)
                     index.append((r, ev))
-            wd = ctx.sub("tv-%s-%s-%d-%s-%d" % (label, reuse, nmods, pol, rejected))
+            wd = ctx.sub("tv-%s-%s-%d-%s-%s-%d" % (label, reuse, nmods, pol, srv, rejected))
             tp = os.path.join(wd, "trace.in.ndjson")
             write_ndjson(tp, lines)
             cfgp = os.path.join(wd, "Server_Trace.cfg")
             with open(cfgp, "w") as f:
-                f.write(cfg_text("trace", reuse, nmods, 0, policy=pol))
+                f.write(cfg_text("trace", reuse, nmods, 0, policy=pol, served=srv))
             ok, hwm, res = validate_with_cfg(ctx, tp, cfgp, len(lines))
             if ok:
                 total += len(pending)
@@ -175,6 +253,8 @@ KEX_FOR = {
 # cipher suite ids: A128GCM=1, A192GCM=2, A256GCM=3,
 # COSEAES128CBC=-17760703, COSEAES128CTR=-17760704, COSEAES256CBC=-17760705, COSEAES256CTR=-17760706
 CIPHERS = [1, 2, 3, -17760703, -17760704, -17760705, -17760706]
+# public key encodings in vouchers: X509=1, X5CHAIN=2, COSE=3 (COSE keys are EC only)
+ENC_FOR = {"P256": [1, 2, 3], "P384": [1, 2, 3], "RSA2048RESTR": [1, 2], "RSAPKCS3072": [1, 2], "RSAPSS2048": [1, 2], "RSAPSS3072": [1, 2]}
 
 
 def worlds(ctx, focus, rnd):
@@ -183,24 +263,27 @@ def worlds(ctx, focus, rnd):
     kinds = ["P256", "P384"] if quick else ["P256", "P384", "RSA2048RESTR", "RSAPKCS3072", "RSAPSS2048", "RSAPSS3072"]
     if quick and focus in (64, 22, 32):
         kinds = ["P256", rnd.choice(["P384", "RSA2048RESTR", "RSAPSS2048"])]
-    combos = [(False, 1, "none"), (True, 0, "none")]
+    combos = [(False, 1, "none", "all"), (True, 0, "none", "all")]
     if not quick:
-        combos += [(True, 1, "none"), (False, 0, "none"), (False, 2, "none")]
+        combos += [(True, 1, "none", "all"), (False, 0, "none", "all"), (False, 2, "none", "all")]
     if focus == 22:
-        combos += [(False, 1, "fixed"), (False, 1, "zero")]
+        combos += [(False, 1, "fixed", "all"), (False, 1, "zero", "all")]
     elif focus == 32:
-        combos += [(False, 0, "short")]         # registrations that expire in real time
+        combos += [(False, 0, "short", "all")]         # registrations that expire in real time
     elif not quick:
-        combos += [(False, 1, "fixed")]
+        combos += [(False, 1, "fixed", "all")]
+    if focus is None:
+        # handlers with a subset of the responders (a rendezvous-only, an owner-only and a manufacturer-only server)
+        combos += [(False, 1, "none", "rv"), (False, 1, "none", "owner")] + ([] if quick else [(False, 1, "none", "mfg")])
     out = []
     for k in kinds:
-        for (reuse, nmods, pol) in combos:
-            out.append({"kind": k, "reuse": reuse, "nmods": nmods, "policy": pol,
+        for (reuse, nmods, pol, srv) in combos:
+            out.append({"kind": k, "reuse": reuse, "nmods": nmods, "policy": pol, "served": srv, "enc": rnd.choice(ENC_FOR[k]),
                         "kex": rnd.choice(KEX_FOR[k]), "cipher": rnd.choice(CIPHERS) if (focus == 64 or not quick) else 1})
     return out, combos
 
 
-def run(ctx, prop, focus, restart_weight=False, light=False):
+def run(ctx, prop, focus, restart_weight=False, light=False, cover_filter=None):
     """focus: which forged-message family gets the weight (64 / 22 / 32 / None); restart_weight: the
     random driver restarts the server side (handler, responders, database reopened) far more often."""
     quick = ctx.quick()
@@ -217,14 +300,40 @@ def run(ctx, prop, focus, restart_weight=False, light=False):
     behaviours = []
     ngen = (40 if quick else 400) if not light else 8
     per_combo_cap = 120 if quick else 1500
-    for ci, (reuse, nmods, pol) in enumerate(combos):
-        acts = generate(ctx, reuse, nmods, ngen, 12 if quick else 16, ctx.seed * 7 + ci, f64, f22, f32, policy=pol)
+    for ci, (reuse, nmods, pol, srv) in enumerate(combos):
+        acts = generate(ctx, reuse, nmods, ngen, 12 if quick else 16, ctx.seed * 7 + ci, f64, f22, f32, policy=pol, served=srv)
         rnd.shuffle(acts)
-        mine = [w for w in ws if (w["reuse"], w["nmods"], w["policy"]) == (reuse, nmods, pol)]
+        mine = [w for w in ws if (w["reuse"], w["nmods"], w["policy"], w["served"]) == (reuse, nmods, pol, srv)]
         for i, a in enumerate(acts[:per_combo_cap]):
             cfg = dict(mine[i % len(mine)])
             cfg["seed"] = rnd.getrandbits(62)
             behaviours.append({"cfg": cfg, "actions": a})
+    # 2b. one behaviour per class of specification transition (breadth-first cover)
+    if not light or cover_filter:
+        ncov = 0
+        for ci, (reuse, nmods, pol, srv) in enumerate(combos):
+            if quick and ci > 1 and pol == "none" and srv == "all":
+                continue
+            acts = cover(ctx, reuse, nmods, pol, 7 if quick else 8, not quick, f64[:2], sorted(set(f22[:2] + ["strip_certchain"])), f32[:2], served=srv)
+            if srv != "all":
+                # what differs from the full handler: exchanges of the protocols without a responder
+                unserved = [p for p in SERVED["all"] if p not in SERVED[srv]]
+                tys = {"DI": (10, 11, 12, 13), "TO0": (20, 21, 22, 23), "TO1": (30, 31, 32, 33), "TO2": tuple(range(60, 72))}
+                bad = set(t for p in unserved for t in tys[p])
+                acts = [a for a in acts if any(x.get("t") in bad or (x["a"] == "start" and x["p"] in unserved) for x in a)]
+            elif pol != "none" and ci > 1:
+                # the other classes are covered in the worlds without a TTL policy
+                acts = [a for a in acts if any(x["a"] == "expire" for x in a)] if pol == "short" else \
+                       [a for a in acts if any(x["a"] == "start" and x["p"] in ("TO0", "TO1") for x in a)]
+            if cover_filter:
+                acts = [a for a in acts if cover_filter(a)]
+            mine = [w for w in ws if (w["reuse"], w["nmods"], w["policy"], w["served"]) == (reuse, nmods, pol, srv)]
+            for i, a in enumerate(acts):
+                cfg = dict(mine[i % len(mine)])
+                cfg["seed"] = rnd.getrandbits(62)
+                behaviours.append({"cfg": cfg, "actions": a})
+                ncov += 1
+        ctx.notes["cover_behaviours_executed"] = ncov
     ctx.log("generated %d distinct behaviours from TLC (%d world configurations)" % (len(behaviours), len(ws)))
     if not behaviours:
         raise Inconclusive("TLC generated no behaviours")
@@ -235,8 +344,10 @@ def run(ctx, prop, focus, restart_weight=False, light=False):
     tpath = os.path.join(wd, "trace.ndjson")
     ctx.run_vh(["srv-replay", "-in", bpath, "-out", tpath], timeout=3000)
     evs = read_ndjson(tpath)
+    ctx.log("replayed %d behaviours on the real server stack (%d events)" % (len(behaviours), len(evs)))
     _attach(evs, behaviours)
     n1 = validate(ctx, prop, evs, "gen")
+    ctx.log("validated %d runs against Server_Trace.tla" % n1)
     ctx.sample({"tlc_generated_behaviour": behaviours[0]["actions"][:8]})
     # 3. random driver (code -> spec)
     rpath = os.path.join(wd, "random.ndjson")
